@@ -203,7 +203,13 @@ fn hex_response_typed(bodies: Vec<Vec<u8>>) -> (usize, TypedGen) {
     let dims = [counts.len(), ST.len(), 5];
     let n_a = product_of(&dims);
     let n_b = 12;
+    // streams of empty entries (one zero byte each): 1 Ki, 1 Mi, 10 Mi - 1, 10 Mi, 10 Mi + 1
+    const ZEROS: [usize; 5] = [1 << 10, 1 << 20, (10 << 20) - 1, 10 << 20, (10 << 20) + 1];
     let g: TypedGen = Arc::new(move |ord| {
+        if ord >= n_a + n_b {
+            let n = ZEROS[ord - n_a - n_b];
+            return (format!("response[{n} empty entries]"), vec![0u8; n]);
+        }
         if ord < n_a {
             let d = digits(ord, &dims);
             let mut b = vec![];
@@ -246,7 +252,7 @@ fn hex_response_typed(bodies: Vec<Vec<u8>>) -> (usize, TypedGen) {
         b.extend_from_slice(&payload);
         (format!("response[length-prefix#{k}]"), b)
     });
-    (n_a + n_b, g)
+    (n_a + n_b + ZEROS.len(), g)
 }
 
 fn eds_typed(payload: Vec<u8>, thorough: bool) -> (usize, TypedGen) {
